@@ -35,8 +35,25 @@ Definition res_eqb (a b : res) : bool :=
   | _, _ => false
   end.
 
-(* released by rfbClientConnectionGone: everything (the file-transfer descriptor since commit 4d56b95) *)
-Definition gone_releases (r : res) : bool := true.
+(* What rfbClientConnectionGone gives back, statement by statement (rfbserver.c, offsets from the start
+   of the function at line 575):
+     +15/+17  cl->prev->next = cl->next / clientHead = cl->next        RListed
+     +24      rfbCloseSocket(cl->sock) (only if still open; the FD_CLR
+              was done by rfbCloseClient, and is moot once sock = -1)   RFd, RFdSet
+     +28      close(cl->fileTransfer.fd)   (commit 4d56b95)            RFileFd
+     +33      cl->scaledScreen->scaledScreenRefCount--                  RScaledRef
+     +46/+47  free(beforeEncBuf) / free(afterEncBuf)                    RBefore, RAfter
+     +55      free(cl->host)                                            RHost
+     +65      deflateEnd(&cl->compStream)                               RZStream
+     +81..83  sraRgnDestroy(modified/requested/copyRegion)              RRegions
+     +109     free(cl)                                                  RRec
+   A resource that is not in this list would stay in the connection's ledger as a leak ([c_leak]);
+   [filter_leak_nil] (LifecycleProofs.v) is the proof that every constructor of [res] has its statement.
+   Resources of encoders / transports outside the modelled fragment (ZRLE, Tight, Ultra, zsStruct[],
+   extClipboardData, translateLookupTable, wsctx, wspath, sslctx) are NOT in [res]: their release is
+   tested with LeakSanitizer only. *)
+Definition gone_release_sites : list res :=
+  [RListed; RFd; RFdSet; RFileFd; RScaledRef; RBefore; RAfter; RHost; RZStream; RRegions; RRec].
 
 Fixpoint remove_one (r : res) (l : list res) : list res :=
   match l with
@@ -45,6 +62,7 @@ Fixpoint remove_one (r : res) (l : list res) : list res :=
   end.
 
 Definition has_res (r : res) (l : list res) : bool := existsb (res_eqb r) l.
+Definition gone_releases (r : res) : bool := has_res r gone_release_sites.
 Definition add_res (r : res) (l : list res) : list res := if has_res r l then l else r :: l.
 
 Record life := mkLife {
@@ -157,6 +175,10 @@ Definition live (s : screen) (k : nat) : option conn :=
 
 Definition is_open (s : screen) (k : nat) : bool :=
   match live s k with Some c => l_open (c_life c) | None => false end.
+
+(* the public client iterator (rfbGetClientIterator / rfbClientIteratorNext): the client list in order,
+   skipping records whose socket is closed *)
+Definition iter_clients (s : screen) : list nat := filter (is_open s) (s_order s).
 
 Definition FDBASE : Z := 200.
 Definition LISTEN_FD : Z := 190.      (* the harness' listening descriptor *)
